@@ -2,8 +2,8 @@
 \* 5 candidate paths x 12 link targets x 5 mount configurations x 2 secret roots
 SPECIFICATION Spec
 CONSTANTS
-  TargetIds = {1, 3, 4, 7, 9, 10, 11, 12, 13, 15, 17, 19}
-  MountCfgIds = {2, 3, 5, 6, 8}
+  TargetIds = {1, 3, 4, 7, 9, 10, 11, 12, 13, 15, 17, 19, 22}
+  MountCfgIds = {2, 3, 5, 6, 8, 11}
   SecretIds = {2, 4}
 INVARIANTS WalkRefinesExpected
 CHECK_DEADLOCK FALSE
